@@ -163,4 +163,22 @@ CHECKS = {
             data_leg("data_frames", (60, 1500), {"cancel": 0, "ports": 1}, require={r'"b":\[8,': 20}, nontrivial=[r'"b":\[8,']),
         ],
     },
+    "C17": {
+        "rule": "seeded lock histories: 2-4 readers and 1-2 writers spread over the owner's endpoint and a remote endpoint (1-2 independently "
+                "transported lock instances, clones sharing a cache), random hold times, commit or drop, cancelled requests, optional loss of the remote "
+                "connection; distinct = distinct event sequences; non-trivial = contains a commit and a read on a different instance",
+        "assumptions": ["guards are logged acquired after / released before the real acquisition / release, so logged overlaps are real",
+                        "single-threaded runtime; streamed (de)serialization threads get a real-time grace period before a deadlock verdict"],
+        "legs": [
+            model("RwLock_MCq.cfg", spec="RwLock.tla", min_states=5000),
+            model("RwLock_MC.cfg", spec="RwLock.tla", min_states=50000, thorough_only=True, timeout=1800),
+            model("RwLock_DevF4.cfg", spec="RwLock.tla", expect_violation="Deadlock"),
+            dict(kind="trace", name="rw_local", workload="rwlock", n=(150, 3000), opts={"remote": 0}, tspec="RwLockTrace.tla", tcfg="RwLockTrace.cfg",
+                 require={r'"ev":"rw_commit_done"': 100, r'"ev":"rw_drop"': 20}, nontrivial=[r'"ev":"rw_commit_done"', r'"kind":"read"']),
+            dict(kind="trace", name="rw_remote", workload="rwlock", n=(150, 3000), opts={"remote": 1}, tspec="RwLockTrace.tla", tcfg="RwLockTrace.cfg",
+                 require={r'"ep":2': 200, r'"ev":"rw_cancel"': 5}, nontrivial=[r'"ev":"rw_commit_done"', r'"ep":2']),
+            dict(kind="trace", name="rw_cut", workload="rwlock", n=(60, 1000), opts={"remote": 1, "cut": 1}, tspec="RwLockTrace.tla", tcfg="RwLockTrace.cfg",
+                 require={r'"ev":"fault"': 50}, nontrivial=[r'"ev":"fault"']),
+        ],
+    },
 }
